@@ -121,6 +121,16 @@ Proof.
     unfold content_of in C |- *. destruct (_ && _ && _); [reflexivity|discriminate].
 Qed.
 
+Lemma sign_ok_gates q h : sign sigfrom selfsig q = SOk h ->
+  request_ok q = true /\ exists s k, q_signer q = Some s /\ s_ks s = Some k /\ format_sign_ok q s k = true.
+Proof.
+  unfold sign. destruct (request_ok q) eqn:R; cbn [negb]; [|discriminate].
+  destruct (q_signer q) as [s|] eqn:Es; [|discriminate].
+  destruct (s_ks s) as [k|] eqn:Ek; [|discriminate].
+  destruct (format_sign_ok q s k) eqn:F; cbn [negb]; [|discriminate].
+  intros _. split; [reflexivity|]. exists s, k. auto.
+Qed.
+
 Theorem sign_never_panics q : sign sigfrom selfsig q <> SPanic.
 Proof.
   unfold sign. destruct (negb (request_ok q)); [discriminate|].
